@@ -6,5 +6,5 @@ cp -r /repo/gym_gridverse "$D/"
 sed -i "$3" "$D/$2"
 if diff -q "$D/$2" "/repo/$2" >/dev/null; then echo "MUTATION DID NOT APPLY"; rm -rf "$D"; exit 2; fi
 cd /verif
-PYVC_REPO="$D" ./check "$1" 2>&1 | grep -E "VIOLATION|UNDECIDED|CHECKER|discharged" | cut -c1-250
+PYVC_EVIDENCE_DIR="$D/evidence" PYVC_REPO="$D" ./check "$1" 2>&1 | grep -E "VIOLATION|UNDECIDED|CHECKER|discharged" | cut -c1-250
 rm -rf "$D"
